@@ -33,7 +33,14 @@ class C11Monitor(Monitor):
             return
         composite = isinstance(mv, CompositeDisplacementMove)
         if not composite and type(mv) is not DisplacementMove:
-            return  # plain CompositeMove of displacement moves: no extra guarantees stated
+            spec = next((e["move"] for i, e in enumerate(w.sc["moves"]) if e.get("name", f"m{i}") == name), None)
+            if spec is not None and spec["type"] in ("sum", "mul"):
+                # built from displacement moves with + and * only: this IS "a composite of n displacement moves",
+                # whatever the parenthesisation; a plain CompositeMove neither excludes repeats nor reports a count
+                self.violate(w, "composite_of_displacement_moves_without_guarantees", self._ctx(w, name),
+                             f"{w.move_kind(name)} ({'right' if spec.get('assoc') == 'right' else 'left'}-nested) is a "
+                             f"{type(mv).__name__}: no displaced_labels / number_of_moved_particles, members choose independently")
+            return  # hand-built plain CompositeMove of displacement moves: no extra guarantees stated
         t = str(w.trial + w.trial_offset)
         vetoed = t in w.sc.get("faults", {}).get("veto", {})
         presel = w.sc.get("preselect", {}).get(t)
